@@ -29,45 +29,45 @@ const (
 
 // Task is one schedulable goroutine.
 type Task struct {
-	Name   string
-	Node   int
-	gid    uint64
-	resume chan struct{}
-	st     state
-	site   string
-	poll   bool
-	epoch  uint64
-	cond   func() bool
-	kill   bool
-	stall  uint64 // not eligible before this step while others are
-	auto   bool   // registered itself at a yield (not started through Go)
-	idleOnly bool // eligible only when nothing else is
-	Steps  uint64
+	Name     string
+	Node     int
+	gid      uint64
+	resume   chan struct{}
+	st       state
+	site     string
+	poll     bool
+	epoch    uint64
+	cond     func() bool
+	kill     bool
+	stall    uint64 // not eligible before this step while others are
+	auto     bool   // registered itself at a yield (not started through Go)
+	idleOnly bool   // eligible only when nothing else is
+	Steps    uint64
 }
 
 // Sched is the scheduler of one simulated run (one synctest bubble).
 type Sched struct {
-	mu        sync.Mutex
-	byGid     map[uint64]*Task
-	tasks     []*Task
-	nameCnt   map[string]int
-	objNames  map[interface{}]string
-	objCnt    map[string]int
-	rng       *Rand
-	step      uint64
-	epoch     uint64
-	cur       *Task
-	last      *Task
-	SpawnNode int
-	Stick     float64
-	Inactive  map[string]bool
+	mu         sync.Mutex
+	byGid      map[uint64]*Task
+	tasks      []*Task
+	nameCnt    map[string]int
+	objNames   map[interface{}]string
+	objCnt     map[string]int
+	rng        *Rand
+	step       uint64
+	epoch      uint64
+	cur        *Task
+	last       *Task
+	SpawnNode  int
+	Stick      float64
+	Inactive   map[string]bool
 	StallSites map[string]uint64 // a task parking at this site is stalled for n steps (slow goroutine fault)
-	SiteHits  map[string]uint64
-	dead      map[int]bool // crashed nodes
-	hash      uint64
-	Trace     []string
-	KeepTrace bool
-	StepHook  func(step uint64, t *Task)
+	SiteHits   map[string]uint64
+	dead       map[int]bool // crashed nodes
+	hash       uint64
+	Trace      []string
+	KeepTrace  bool
+	StepHook   func(step uint64, t *Task)
 	// Forced schedule (replay of an explicit schedule); falls back to PRNG.
 	Forced   []string
 	forcedAt int
@@ -80,18 +80,18 @@ type Sched struct {
 // New creates a scheduler. Must be called inside the bubble.
 func New(seed uint64) *Sched {
 	s := &Sched{
-		byGid:    map[uint64]*Task{},
-		nameCnt:  map[string]int{},
-		objNames: map[interface{}]string{},
-		objCnt:   map[string]int{},
-		rng:      NewRand(seed),
-		Inactive: map[string]bool{},
+		byGid:      map[uint64]*Task{},
+		nameCnt:    map[string]int{},
+		objNames:   map[interface{}]string{},
+		objCnt:     map[string]int{},
+		rng:        NewRand(seed),
+		Inactive:   map[string]bool{},
 		StallSites: map[string]uint64{},
-		SiteHits: map[string]uint64{},
-		dead:     map[int]bool{},
-		regStep:  map[string]uint64{},
-		hash:     1469598103934665603,
-		start:    time.Now(),
+		SiteHits:   map[string]uint64{},
+		dead:       map[int]bool{},
+		regStep:    map[string]uint64{},
+		hash:       1469598103934665603,
+		start:      time.Now(),
 	}
 	return s
 }
